@@ -29,10 +29,16 @@ def gen_cases(tier, seed):
     for _ in range(10 if tier == "quick" else 300):
         idents.append([rng.getrandbits(32) for _ in range(4)])
     cases = [{"ident": i, "ops": [{"name": "fast_scan"}]} for i in idents]
+    # several devices found one after the other by the same master object
+    for _ in range(6 if tier == "quick" else 100):
+        ids = [[rng.getrandbits(32) for _ in range(4)] for _ in range(3)]
+        ids[1][rng.randrange(4)] = 0
+        cases.append({"ident": ids[0], "ops": [{"name": "fast_scan"}, {"name": "newdev", "ident": ids[1]}, {"name": "fast_scan"},
+                                               {"name": "newdev", "ident": ids[2]}, {"name": "fast_scan"}]})
     cases.append({"ident": [1, 2, 3, 4], "present": False, "ops": [{"name": "fast_scan"}]})
     cases.append({"ident": [1, 2, 3, 4], "nid": 5, "ops": [{"name": "fast_scan"}], "present": False})
     # services
-    replies = ["ok", "silence", "wrongcs", "sibling"] + [f"err:{c}" for c in (1, 2, 255, rng.randrange(3, 255))]
+    replies = ["ok", "ok", "silence", "wrongcs", "sibling", "late"] + [f"err:{c}" for c in (1, 2, 255, rng.randrange(3, 255))]
     for chunk in range(8 if tier == "quick" else 60):
         ops = []
         ident = [rng.getrandbits(32) for _ in range(4)]
